@@ -21,7 +21,7 @@ META = dict(
                       "x(kG) < n, digest one symbolic byte (e in [0,255], including e = 0 and "
                       "e >= n), both decoders, both allow_truncate settings, "
                       "from_public_key_recovery (hash stub) and _with_digest",
-                thorough="n <= 19, all d, digests of 1 and 2 bytes"),
+                thorough="n <= 13, all d, digests of 1 and 2 bytes"),
     stubs=eg.STUBS + ["hash function: arbitrary digest bytes"],
     outside=["the group law (C06/C07)", "production-size orders", "cofactor != 1 (excluded by the property)"],
     assumptions=["z3 QF_BV sound", "instrumented source executes like the original"],
@@ -100,7 +100,7 @@ def jobs(tier, seed):
     js = [Job("eg-validate", "harness.egcommon:validate_eg", tier=tier)]
     for i, tc in enumerate(E.toy_curves(tier)):
         n = tc["n"]
-        if n > (11 if tier == "quick" else 19):
+        if n > (11 if tier == "quick" else 13):
             continue
         ds = sorted(set([1, 2, n - 2, n - 1])) if tier == "quick" else range(1, n)
         for d in ds:
